@@ -28,6 +28,8 @@ type Replay struct {
 	Trailing string     `json:"trailing,omitempty"`
 	Exact    bool       `json:"exact,omitempty"`
 	Lines    []FileLine `json:"lines,omitempty"`
+	User     []string   `json:"user,omitempty"`
+	Seek     int        `json:"seek,omitempty"` // 1 + the line to seek back to after the last line; 0 = no seek
 }
 
 var (
@@ -313,6 +315,78 @@ func caseRel(lit string, exact bool, keep *[]relObs) Case {
 	return cs
 }
 
+// caseConst: minute / hour / day / week. K brackets the clock; O: not later than now, less than one period back,
+// hour/day/week on their boundary, the week starting on a Sunday (what the comment of parseLqlDateTime promises).
+func caseConst(lit string) Case {
+	lo := time.Now().UnixNano()
+	tm, err := lql.VC20ParseDateTime(lit)
+	hi := time.Now().UnixNano()
+	cs := Case{Replay: Replay{Kind: "const", Text: lit}, Stream: "const", NonTrivial: true}
+	if err != nil {
+		cs.Coq = GApp("KConst", GStr(lit), GZ(lo), GZ(hi), GZ(0))
+		cs.Oracle = &Violation{Class: "lql-constant-rejected", Detail: fmt.Sprintf("%q: %v", lit, err)}
+		return cs
+	}
+	obs := tm.UnixNano()
+	cs.Coq = GApp("KConst", GStr(lit), GZ(lo), GZ(hi), GZ(obs))
+	name := strings.ToLower(strings.Trim(lit, " "))
+	period := map[string]int64{"minute": 60e9, "hour": 3600e9, "day": 86400e9, "week": 7 * 86400e9}[name]
+	u := tm.UTC()
+	switch {
+	case obs > hi:
+		cs.Oracle = &Violation{Class: "lql-constant-later-than-now", Detail: fmt.Sprintf("%q -> %d, now <= %d", lit, obs, hi)}
+	case obs <= lo-period:
+		cs.Oracle = &Violation{Class: "lql-constant-out-of-period", Detail: fmt.Sprintf("%q -> %d, now >= %d: a whole period back or more", lit, obs, lo)}
+	case name != "minute" && (u.Minute() != 0 || u.Second() != 0 || u.Nanosecond() != 0 || (name != "hour" && u.Hour() != 0) || (name == "week" && u.Weekday() != time.Sunday)):
+		cs.Oracle = &Violation{Class: "lql-constant-not-on-boundary", Detail: fmt.Sprintf("%q -> %s", lit, u.Format(time.RFC3339Nano))}
+	case name == "minute" && u.Second() != 0:
+		cs.Oracle = &Violation{Class: "lql-constant-not-on-boundary", Detail: fmt.Sprintf("%q -> %s", lit, u.Format(time.RFC3339Nano))}
+	}
+	return cs
+}
+
+// caseUser: date.NewDefaultParser(user formats...): the user's formats are asked first, then the collector's list; with no
+// user format it is the package's default parser, which date.Parse uses. text is written in format f for c (f == "": any text).
+func caseUser(usr []string, f string, c *Civil, text string) Case {
+	p := date.NewDefaultParser(usr...)
+	var tm time.Time
+	var ff *date.Format
+	var tmD time.Time
+	var errD error
+	now := withNow(func() {
+		tm, ff = p.Parse([]byte(text))
+		tmD, errD = date.Parse([]byte(text))
+	})
+	obs := GNone
+	if ff != nil {
+		obs = GSome(GTuple(GNat(fmtIndex(p.VC20Formats(), ff)), gInst(tm)))
+	}
+	us := make([]string, len(usr))
+	for i, u := range usr {
+		us[i] = GStr(u)
+	}
+	cs := Case{Coq: GApp("KUser", GList(us), gNow(now), GStr(text), obs), Replay: Replay{Kind: "user", User: usr, Format: f, Civil: c, Text: text},
+		NonTrivial: ff != nil, Stream: "user-formats"}
+	if len(usr) == 0 {
+		// date.Parse is the default parser: same verdict, same instant
+		if (errD == nil) != (ff != nil) || (ff != nil && !tmD.Equal(tm)) {
+			cs.Oracle = &Violation{Class: "collector-default-parse-differs", Detail: fmt.Sprintf("date.Parse(%q) = %v, %v; the default parser: %v, format found: %v", text, tmD, errD, tm, ff != nil)}
+		}
+	}
+	if f != "" && c != nil && cs.Oracle == nil {
+		fi := analyse(terms, f)
+		es, en := fi.expected(*c, now)
+		if ff == nil || tm.Unix() != es || int64(tm.Nanosecond()) != en {
+			got := "no date"
+			if ff != nil {
+				got = tm.UTC().Format(time.RFC3339Nano) + " by " + ff.VC20Format()
+			}
+			cs.Oracle = &Violation{Class: "collector-user-format-" + slug(f) + "-wrong-instant", Detail: fmt.Sprintf("user formats %q first: %q -> %s; want %s", usr, text, got, time.Unix(es, en).UTC().Format(time.RFC3339Nano))}
+		}
+	}
+	return cs
+}
+
 // ---------------------------------------------------------------- generators
 
 var offs = []int{0, 0, 60, -60, 330, -210, 765, -720, 840, -480, 120, 545}
@@ -484,8 +558,12 @@ func run(c *Ctx) error {
 			c.Add(caseLql(rp.Text, true, rp.K, *rp.Civil))
 		case "rel":
 			c.Add(caseRel(rp.Text, rp.Exact, &keep))
+		case "const":
+			c.Add(caseConst(rp.Text))
+		case "user":
+			c.Add(caseUser(rp.User, rp.Format, rp.Civil, rp.Text))
 		case "lines":
-			cs, err := caseLines(rp.K, rp.Lines)
+			cs, err := caseLines(rp.K, rp.Lines, rp.Seek-1)
 			if err != nil {
 				return err
 			}
@@ -552,6 +630,47 @@ func run(c *Ctx) error {
 			}
 		}
 	}
+	// the pairs of C20_claim_pairs: formats that differ in digit widths only (D/DD, M/MM, h/hh, _D/DD) and the formats with a
+	// time of day behind `MM.DD.YY` (whose unescaped dots match colons): more instants, with one- and two-digit days, months
+	// and hours in every combination, so that an earlier format that can claim the text does (the oracle names it if the
+	// instant differs)
+	twin := func(f string) string {
+		t := strings.Replace(f, "_D", "D", -1)
+		for _, p := range [][2]string{{"DDDD", "\x01"}, {"DDD", "\x02"}, {"MMMM", "\x03"}, {"MMM", "\x04"}} {
+			t = strings.Replace(t, p[0], p[1], -1)
+		}
+		for _, p := range [][2]string{{"DD", "D"}, {"MM", "M"}, {"hh", "h"}} {
+			t = strings.Replace(t, p[0], p[1], -1)
+		}
+		return t
+	}
+	for li := 0; li < 2; li++ {
+		groups := map[string]int{}
+		seenDots := false
+		for _, f := range lists[li] {
+			groups[twin(f)]++
+		}
+		for k, f := range lists[li] {
+			fi := analyse(terms, f)
+			paired := groups[twin(f)] > 1 || (seenDots && strings.Contains(f, "HH:mm"))
+			if f == "MM.DD.YY" {
+				seenDots = true
+			}
+			if !fi.known || !paired {
+				continue
+			}
+			for i := 0; i < 8; i++ {
+				cv := randCivil(r, !fi.twoDigitYear)
+				cv.D, cv.Mo, cv.H = []int{3, 17, 9, 28}[i%4], []int{4, 11, 12, 7}[(i/2)%4], []int{5, 15, 11, 0, 23, 9, 12, 20}[i]
+				cv = fit(r, fi, cv, now, li == 1)
+				if li == 0 {
+					c.Add(caseSelf(0, k, cv, ""))
+				} else {
+					c.Add(caseLql(fi.render(terms, cv), true, k, cv))
+				}
+			}
+		}
+	}
 	// user formats outside the lists, alone
 	for _, f := range extraFormats {
 		fi := analyse(terms, f)
@@ -601,7 +720,10 @@ func run(c *Ctx) error {
 		}
 		c.Add(caseLql(lit, false, 0, Civil{}))
 	}
-	for _, s := range []string{"9223372036854775808", "-9223372036854775809", "12a", "1_000", "0x10", "1e3", "", " ", "--5", "+-5"} {
+	// ... and literals that look relative but are not (no number, two dots, letters, no unit): the relative reader refuses them
+	// and the literal goes on to the constants, the formats and the integer reader
+	for _, s := range []string{"9223372036854775808", "-9223372036854775809", "12a", "1_000", "0x10", "1e3", "", " ", "--5", "+-5",
+		"-h", "-m", "-d", "-.h", "-1.2.3h", "-xm", "-1..5d", "-5", "-5s", "-5w", "-", "-1h2m", "- 1h", "-1 h", "minutes", "hours", "daily", "wee", "now"} {
 		c.Add(caseLql(s, false, 0, Civil{}))
 	}
 	// relative literals
@@ -616,6 +738,36 @@ func run(c *Ctx) error {
 			c.Add(caseRel(fmt.Sprintf("-%d.%0*d%s", r.Intn(500), r.Range(1, 6), r.Intn(1000), unit), false, &keep))
 		}
 	}
+	// named constants
+	for _, s := range []string{"minute", "hour", "day", "week", "MINUTE", "Hour", " day ", "WeeK", "  week", "hour  "} {
+		c.Add(caseConst(s))
+	}
+	// date.NewDefaultParser with the user's formats in front of the collector's list, and without any (= date.Parse)
+	for i := 0; i < c.N(48); i++ {
+		var usr []string
+		for j := r.PickInt(0, 1, 1, 2, 3); j > 0; j-- {
+			usr = append(usr, extraFormats[r.Intn(len(extraFormats))])
+		}
+		all := append(append([]string{}, usr...), lists[0]...)
+		f := all[r.Intn(len(all))]
+		if len(usr) > 0 && r.Chance(1, 2) {
+			f = usr[r.Intn(len(usr))]
+		}
+		fi := analyse(terms, f)
+		if !fi.known {
+			continue
+		}
+		cv := fit(r, fi, randCivil(r, !fi.twoDigitYear), now, false)
+		text := fi.render(terms, cv) + r.PickStr("", "", " msg", ", x=1")
+		switch {
+		case i%6 == 5:
+			c.Add(caseUser(usr, "", nil, mutate(r, text)))
+		case len(usr) > 0 && f == usr[0]:
+			c.Add(caseUser(usr, f, &cv, text)) // the first user format is asked first: its text gets its instant
+		default:
+			c.Add(caseUser(usr, "", nil, text))
+		}
+	}
 	// files through the collector's line parser
 	{
 		w := Civil{Y: 2019, Mo: 5, D: 25, H: 15, Mi: 7, S: 9, Abbr: "UTC"}
@@ -626,7 +778,7 @@ func run(c *Ctx) error {
 					ls = append(ls, FileLine{Text: "  at some.stack.Frame(x)"})
 				}
 				ls = append(ls, FileLine{Dated: true, Civil: &w, Text: "2019-05-25 15:07:09 done"})
-				cs, err := caseLines(k, ls)
+				cs, err := caseLines(k, ls, -1)
 				if err != nil {
 					return err
 				}
@@ -638,7 +790,11 @@ func run(c *Ctx) error {
 			if k < 0 {
 				continue
 			}
-			cs, err := caseLines(k, ls)
+			seek := -1
+			if i%3 == 0 {
+				seek = r.Intn(len(ls)) // read the whole file, then go back to the start of this line and read on
+			}
+			cs, err := caseLines(k, ls, seek)
 			if err != nil {
 				return err
 			}
